@@ -301,7 +301,7 @@ fn started_names(rec: &Rec) -> Vec<String> {
 
 /// Runs one (method, filter) pair; returns `None` if the filter was honoured.
 pub fn order_case(m: usize, fi: usize) -> Option<String> {
-    use cucumber::{runner::Basic, ScenarioType, WriterExt as _};
+    use cucumber::{runner::Basic, ScenarioType};
     let forms = formulas();
     let (re, tags) = ORDER_FILTERS[fi];
     let fc = FilterCfg { re, tags, closure: None, via_clap: false };
